@@ -61,6 +61,7 @@ class C09(Check):
         try:
             self.corpus(ctx, env)
             self.exhaustive(ctx, env)
+            self.on_valid_sheets(ctx, env)
             self.boundary(ctx, env)
             self.random_walks(ctx, env)
             env.flush()
@@ -106,6 +107,47 @@ class C09(Check):
                     if n is None:
                         break
                 env.history(h, raising=True, kind='sampled-3', fresh_ns=True)
+
+    def on_valid_sheets(self, ctx, env):
+        """every ordered sheet of length <= n over seven kinds (comments / unknown rules anywhere), parsed from text,
+        then one add / insertRule(index) / insertRule(index, inOrder=True): the scans for the insertion point see
+        every arrangement of rules that must stay ahead and rules that are transparent"""
+        alph = ['charset', 'import', 'namespace', 'variables', 'style', 'comment', 'unknown']
+        rank = {'charset': 0, 'import': 1, 'namespace': 2, 'variables': 3, 'style': 4}
+        rng = ctx.sub_rng('valid-sheets')
+
+        def valid(seq):
+            last = -1
+            for i, k in enumerate(seq):
+                if k == 'charset' and i != 0:
+                    return False
+                if k in rank:
+                    if rank[k] < last:
+                        return False
+                    last = rank[k]
+            return True
+        full, adds_only = ctx.n(3, 4), ctx.n(4, 5)
+        sample = ctx.n(120, 4000)
+        count = 0
+        for n in range(0, adds_only + 1):
+            bases = [seq for seq in itertools.product(alph, repeat=n) if valid(seq)]
+            if n > full and len(bases) > sample:
+                bases = rng.sample(bases, sample)
+            for seq in bases:
+                specs = [ops_mod.basic_spec(k) if k != 'namespace' else Spec(k, pre='b%d' % i, uri='w%d' % i)
+                         for i, k in enumerate(seq)]
+                base = ('text', specs)
+                for k in ops_mod.KINDS10:
+                    s = ops_mod.basic_spec(k)
+                    env.history([base, ('add', s, 0)], kind='valid-sheet-add')
+                    count += 1
+                    if n <= full:
+                        for i in range(n + 1):
+                            env.history([base, ('ins', s, i, 0)], kind='valid-sheet-ins')
+                            if k in ('namespace', 'variables', 'import', 'charset'):
+                                env.history([base, ('insord', s, i, 0)], kind='valid-sheet-insord')
+                            count += 1
+        ctx.notes['valid_sheet_histories'] = count
 
     def boundary(self, ctx, env):
         for h in ops_mod.boundary_histories():
